@@ -46,7 +46,7 @@ Theorem C09_success_means_all_selected_ran : forall exists_ lib_items outcome_ok
   fst (main_m single_run_by_item_name exists_ lib_items outcome_ok pairs) = false ->
   Forall2 (fun pr ex => fst pr = fst ex /\ exists_ (fst pr) = true /\
                         Permutation (snd ex) (selected (snd pr) (lib_items (fst pr))) /\ snd ex <> [] /\
-                        outcome_ok (snd ex) = true)
+                        outcome_ok (fst pr) (snd ex) = true)
           pairs (snd (main_m single_run_by_item_name exists_ lib_items outcome_ok pairs)).
 Proof. exact main_success_means_all_ran. Qed.
 Print Assumptions C09_success_means_all_selected_ran.
